@@ -23,6 +23,11 @@ subject).  Core Lean only.
 
 namespace Req
 
+/-- `slottools.EpochLen` and `maxSlotsToStream`, as the model uses them; `Faithful/Properties/C08.lean` ties
+    them to the constants regenerated from the source (`gen_consts_eq_model`) -/
+def epochLen : Nat := 432000
+def maxSlotsToStream : Nat := 100
+
 inductive Outcome (α : Type) where
   | ok (a : α)
   | err (e : String)
@@ -412,7 +417,7 @@ def World.hasEpoch (w : World) (e : Nat) : Bool := w.epochs.any (·.1 = e)
 def World.anyGsfa (w : World) : Bool := w.epochs.any (·.2)
 def World.gsfaInRange (w : World) (lo hi : Nat) : Bool := w.epochs.any fun p => p.2 && lo ≤ p.1 && p.1 ≤ hi
 
-def epochOf (slot : Nat) : Nat := slot / 432000
+def epochOf (slot : Nat) : Nat := slot / epochLen
 
 /-- what the data layer answers once the prelude has passed: abstract, never a panic (C12's subject) -/
 structure Backend where
@@ -662,7 +667,7 @@ structure StreamTxReq where
 def endSlotOf (start : Nat) (end_ : Option Nat) : Nat :=
   match end_ with
   | some e => e
-  | none => u64 (start + 100)
+  | none => u64 (start + maxSlotsToStream)
 
 /-- the filter applied to every transaction the scan meets -/
 def scanTxs (f : Option TxFilter) (gsfaLoaded : Bool) : List TxFacts → Outcome Unit
